@@ -1330,8 +1330,18 @@ class Engine:
         if isinstance(container, VDict):
             return self.dict_has(container, item, node)
         if isinstance(container, VOpaque):
-            return self.fresh_bool("in_opaque").t
+            # an opaque mapping: the answer is arbitrary, but it is remembered for this key, so that `if k in m: del m[k]` cannot raise
+            known = self.state.ghost.setdefault("opaque_has", {})
+            kid = (container.tag, self._key_id(item))
+            if kid not in known:
+                known[kid] = self.fresh_bool("in_opaque").t
+            return known[kid]
         raise OutOfSubset("membership in %r" % (container,), node)
+
+    def _key_id(self, key):
+        key = self.force(key)
+        t = getattr(key, "t", None)
+        return simp(t).sexpr() if t is not None and z3.is_expr(t) else repr(key)
 
     # ---- dicts
     def dict_key(self, key, node=None):
@@ -1715,6 +1725,14 @@ class Engine:
                     else:
                         raise OutOfSubset("del with symbolic key", node)
                 elif isinstance(base, VOpaque):
+                    # KeyError unless the key is known to be present (tested on this path); an untested key may be absent
+                    known = self.state.ghost.setdefault("opaque_has", {})
+                    kid = (base.tag, self._key_id(key))
+                    p = known.get(kid)
+                    if p is None:
+                        p = self.fresh_bool("opaque_has_key").t
+                    self.builtin_pre("KeyError", p, node)
+                    known[kid] = z3.BoolVal(False)
                     self.emit("opaque_del", base=base, node=node)
                 else:
                     raise OutOfSubset("del subscript", node)
